@@ -593,6 +593,167 @@ void h_spai0(void)
     not_decided=['that this M minimises ||I - M A||_F over diagonal matrices (calculus on the formula the unit pins, not a code property)', 'n beyond the bound'])
 spai0_ctor.unwindset = [(r'for \(ptrdiff_t a = A\.ptr', 'ZMAX+1'), (r'for\(ptrdiff_t i = 0;', 'NMAX+1')]
 
-UNITS = [sky_values3, ilu_serial_solve, sptr_solve_lower, sptr_solve_upper, gs_parallel_sweep, spai0_ctor]
+# ============================================================================ 5. relaxation::ilu0 constructor: STRUCTURE of L, U, D
+from _common import CRS_MEMBERS_C, crs_member_cuts
+
+ILU0_CUT = Cut(
+    ILU0, r'template <class Matrix>\s*ilu0\( const Matrix &A, const params &prm, const typename Backend::params &bprm\)\s*: prm\(prm\)\s*(?=\{)',
+    rules=[
+        COMPOUND, NUMA_NEW, NUMA_DEREF,
+        Rule(r'^\s*typedef [^;\n]*\bbuild_matrix;\n', '', 1, why='R-tmpl: build_matrix = backend::crs<V, C, P> (typedef in the template)'),
+        Rule(r'\bauto (\w+) = std_make_shared<build_matrix>\(\);', r'crs *const \1 = crs_new();', 2, why='R-new make_shared<crs>()'),
+        Rule(r'\b(\w+)->set_size\(([^,()]+), ([^,()]+)\);', r'crs_set_size(\1, \2, \3, 0 /* default clean_ptr = false */);', 2, why='R-member-call'),
+        Rule(r'\b(\w+)->set_nonzeros\(([^,()]+)\);', r'crs_set_nonzeros_n(\1, \2, 1 /* default need_values = true */);', 2, why='R-member-call'),
+        Rule(r'\bstd_vector<value_type\*> (\w+)\((?P<n>[^,;()]+), NULL\);',
+             r'STD_VECTOR_PTR(\1, \g<n>);', 1,
+             why='R-vector std::vector<V*> work(n, NULL)'),
+        Rule(r'\bauto (\w+) = (\w+)->val\[', r'value_type \1 = \2->val[', '+', why='R-auto (value_type)'),
+        Rule(r'^(\s*)ilu = std_make_shared<ilu_solve>\((\w+), (\w+), (\w+), prm\.solve, bprm\);', r'\1ILU_MADE(self, \2, \3, \4);', 1,
+             why='member ilu = make_shared<ilu_solve>(L, U, D, ...): ghost hook recording the three arguments (the solver is unit ilu_serial_solve / sptr_*)'),
+        IdxRule(r'A\.col|A\.val', 'nonzeros(A)', '+'), IdxRule(r'A\.ptr', 'rows(A) + 1', '+'),
+        IdxRule(r'(L|U)->(?:col|val)', r'\1->nnz', '+'), IdxRule(r'(L|U)->ptr', r'\1->nrows + 1', '+'),
+        IdxRule(r'D', 'D_n', '+'), IdxRule(r'work', 'work_n', '+')],
+    uf=[UFByType(['value_type'])])
+
+SPEC_ILU0 = r"""
+typedef crs build_matrix;
+/* std::vector<value_type*> name(n, NULL): constant-capacity array of n null pointers + logical length */
+#define STD_VECTOR_PTR(name, n) value_type *name[NMAX + 1]; const size_t name##_n = (size_t)(n); for (size_t i_ = 0; i_ < NMAX + 1; ++i_) name[i_] = NULL
+WITNESS_CRS(A)
+size_t w_r0;
+/* ghost recording through the value-model macros (no code is retyped): which values were inverted / tested for zero, how often */
+static int g_inv_calls; static V g_inv_arg[NMAX + 2];
+static inline V rec_inverse(V a) { if (g_inv_calls < NMAX + 2) g_inv_arg[g_inv_calls] = a; g_inv_calls++; return __CPROVER_uninterpreted_inverse(a); }
+static int g_zero_calls, g_zero_true, g_zero_last;
+static inline _Bool rec_is_zero(V a) { const _Bool r = __CPROVER_uninterpreted_is_zero(a) ? 1 : 0; g_zero_calls++; if (r) g_zero_true++; g_zero_last = r; return r; }
+#undef math_inverse
+#undef math_is_zero
+#define math_inverse(a) rec_inverse((V)(a))
+#define math_is_zero(a) rec_is_zero((V)(a))
+#define RAW_IS_ZERO(a) (__CPROVER_uninterpreted_is_zero((V)(a)) ? 1 : 0)
+/* member ilu of relaxation::ilu0: the triangular solver made from (L, U, D) */
+typedef struct { const crs *L; const crs *U; const V *D; size_t D_n; int made; } ilu0_t;
+#define ILU_MADE(self, l, u, d) do { (self)->L = (l); (self)->U = (u); (self)->D = (d); (self)->D_n = d##_n; (self)->made++; } while (0)
+
+static _Bool one_diag_per_row(const crs *A)
+{
+  for (size_t i = 0; i < NMAX; ++i) if (i < A->nrows) { if (count_in_row(A, i, i) != 1) return 0; }
+  return 1;
+}
+/* row r has no stored diagonal but a stored entry right of the diagonal */
+static _Bool row_lacks_diag_right(const crs *A, size_t r)
+{
+  _Bool right = 0;
+  for (size_t j = 0; j < CAP_NNZ; ++j) if ((ptrdiff_t)j >= A->ptr[r] && (ptrdiff_t)j < A->ptr[r + 1]) { if ((size_t)A->col[j] > r) right = 1; }
+  return count_in_row(A, r, r) == 0 && right;
+}
+/* factor F (lower != 0: L, else U): n x n, ptr from 0 monotone to nnz, every column strictly on its side of the diagonal and strictly ascending */
+static _Bool factor_wf(const crs *F, size_t n, size_t cap, _Bool lower)
+{
+  if (!(F->nrows == n && F->ncols == n && F->ptr[0] == 0)) return 0;
+  for (size_t i = 0; i < NMAX; ++i) if (i < n) { if (!(F->ptr[i] <= F->ptr[i + 1])) return 0; }
+  if (!(F->ptr[n] >= 0 && (size_t)F->ptr[n] == F->nnz && F->nnz <= cap)) return 0;
+  for (size_t i = 0; i < NMAX; ++i) if (i < n)
+    for (size_t j = 0; j < CAP_NNZ; ++j) if ((ptrdiff_t)j >= F->ptr[i] && (ptrdiff_t)j < F->ptr[i + 1]) {
+      if (lower ? !(F->col[j] >= 0 && (size_t)F->col[j] < i) : !((size_t)F->col[j] > i && (size_t)F->col[j] < n)) return 0;
+      if ((ptrdiff_t)j + 1 < F->ptr[i + 1] && !(F->col[j] < F->col[j + 1])) return 0;
+    }
+  return 1;
+}
+/* every stored entry (i,c) of F is a stored entry of A, and its value is not zero */
+static _Bool factor_in_pattern(const crs *F, const crs *A, size_t n)
+{
+  for (size_t i = 0; i < NMAX; ++i) if (i < n)
+    for (size_t j = 0; j < CAP_NNZ; ++j) if ((ptrdiff_t)j >= F->ptr[i] && (ptrdiff_t)j < F->ptr[i + 1]) { if (count_in_row(A, i, (size_t)F->col[j]) != 1) return 0; }
+  return 1;
+}
+static _Bool factor_nonzero(const crs *F, size_t n)
+{
+  for (size_t j = 0; j < CAP_NNZ; ++j) if (j < F->nnz) { if (RAW_IS_ZERO(F->val[j])) return 0; }
+  (void)n;
+  return 1;
+}
+"""
+
+ilu0_structure = Unit(
+    name='ilu0_structure', props=['C06', 'C10'],
+    functions=['relaxation::ilu0<Backend>::ilu0(const Matrix&, const params&, const backend_params&)', 'crs::set_size', 'crs::set_nonzeros'],
+    desc='ILU(0) constructor, structure of the factors handed to the triangular solver: L strictly lower, U strictly upper, columns in range and strictly ascending, '
+         'pattern(L) + diagonal + pattern(U) == pattern(A) minus the entries whose computed value is_zero (kept values are non-zero, every off-diagonal entry is tested exactly once, '
+         'counts add up), D[i] = inverse of a value tested non-zero, inverted exactly once per row; zero pivot => exception; row without diagonal but with an entry right of it => exception; '
+         'every subscript within its array; A unchanged',
+    cuts=dict(crs_member_cuts(), body=ILU0_CUT),
+    template=UF16 + VEC_PRELUDE + CRS_MEMBERS_C + SPEC_ILU0 + r"""
+/* contract (enforced by the harness):
+ *   requires  A n x n well-formed, rows strictly ascending (sorted, no duplicates: A-sorted)
+ *             DIAG=1: every row has a stored diagonal entry;  DIAG=0: some row r0 has no stored diagonal but an entry right of the diagonal
+ *   ensures   DIAG=1, not thrown: structure clauses above;  thrown => the last value tested is_zero (a pivot);
+ *             DIAG=0: thrown                                                                                      */
+static void f_ilu0(ilu0_t *self, const crs *A_p)
+{
+#define A (*A_p)
+/*@CUT:body@*/
+#undef A
+}
+void h_ilu0(void)
+{
+  crs *A = crs_input();
+  REQUIRES(crs_wf(A, NMAX, NMAX, ZMAX) && A->nrows == A->ncols && crs_rows_sorted(A, 1));
+  const size_t n = A->nrows;
+#if DIAG
+  REQUIRES(one_diag_per_row(A));
+#else
+  size_t r0; REQUIRES(r0 < n && row_lacks_diag_right(A, r0)); w_r0 = r0;
+#endif
+  MIRROR_CRS(A, A);
+  crs_snap s; crs_snapshot(A, &s);
+  ilu0_t S; S.L = 0; S.U = 0; S.D = 0; S.D_n = 0; S.made = 0;
+  f_ilu0(&S, A);
+  ENSURES(!g_cap_exceeded, "bound artefact: allocation within verification capacity");
+  ENSURES(crs_unchanged(A, &s), "frame: the input matrix is not modified");
+#if DIAG
+  ENSURES(!g_thrown || g_zero_last, "ilu0: with a stored diagonal in every row an exception is raised only for a pivot that is_zero");
+  if (!g_thrown) {
+    const size_t nnzA = (size_t)A->ptr[n];
+    ENSURES(S.made == 1 && S.L != 0 && S.U != 0 && S.D != 0 && S.D_n == n, "ilu0: the triangular solver is made exactly once from (L, U, D), D has n cells");
+    if (S.made == 1 && S.L != 0 && S.U != 0 && S.D != 0) {
+      const _Bool lwf = factor_wf(S.L, n, CAP_NNZ, 1), uwf = factor_wf(S.U, n, CAP_NNZ, 0);
+      ENSURES(lwf, "ilu0: L is n x n, ptr monotone from 0 to nnz, every column strictly LEFT of the diagonal and strictly ascending");
+      ENSURES(uwf, "ilu0: U is n x n, ptr monotone from 0 to nnz, every column strictly RIGHT of the diagonal, in range and strictly ascending");
+      ENSURES(!lwf || !uwf || (factor_in_pattern(S.L, A, n) && factor_in_pattern(S.U, A, n)), "ilu0: pattern(L) and pattern(U) are subsets of pattern(A) (no fill-in: ILU(0))");
+      ENSURES(!lwf || !uwf || (factor_nonzero(S.L, n) && factor_nonzero(S.U, n)), "ilu0: every stored value of L and U is non-zero (zeros are dropped from the factors)");
+      ENSURES(!lwf || !uwf || (S.L->nnz + S.U->nnz + n + (size_t)g_zero_true == nnzA && (size_t)g_zero_calls == nnzA),
+              "ilu0: pattern(L) + diagonal + pattern(U) == pattern(A) minus the entries whose value is_zero: every entry of A is tested exactly once and the counts add up");
+      _Bool dinv = g_inv_calls == (int)n;
+      for (size_t i = 0; i < NMAX; ++i) if (i < n && dinv) { if (S.D[i] != __CPROVER_uninterpreted_inverse(g_inv_arg[i]) || RAW_IS_ZERO(g_inv_arg[i])) dinv = 0; }
+      ENSURES(dinv, "ilu0: exactly one inversion per row, D[i] == inverse(pivot_i) and the inverted pivot was tested non-zero (zero pivot => exception)");
+    }
+  }
+#else
+  ENSURES(g_thrown, "ilu0: a row without a stored diagonal entry (and an entry right of the diagonal) is reported by an exception");
+#endif
+  CANARY("harness.end");
+}
+""",
+    entry='h_ilu0', mode='unwound', unwind='max(ZMAX,NMAX)+3', model='uf',
+    variants=[{'NMAX': 3, 'ZMAX': 6, 'DIAG': 1}, {'NMAX': 3, 'ZMAX': 8, 'DIAG': 0, 'CXC_NOCOVER': 1}],
+    thorough_variants=[{'NMAX': 3, 'ZMAX': 9, 'DIAG': 1}, {'NMAX': 3, 'ZMAX': 8, 'DIAG': 0, 'CXC_NOCOVER': 1}],
+    bound_text='n <= 3, nnz <= 6 with a full diagonal (thorough: nnz <= 9 = every 3x3 pattern, measured 170 s), nnz <= 8 = every 3x3 pattern with a missing diagonal; rows strictly ascending, pattern symbolic, values uninterpreted (is_zero an uninterpreted predicate: '
+               'every combination of dropped entries / zero pivots)',
+    assumptions=A_RELAX + A_UF + A_UF16 + [
+        'A-sorted: the rows of A are sorted by column without duplicates (ILU(0) walks each row up to the diagonal; amgcl sorts the rows of every level matrix)',
+        'A-own: shared_ptr members are plain pointers; make_shared<numa_vector<V>>(n, false) is a fresh allocation of n cells with arbitrary content',
+        'A-ghost: math::inverse / math::is_zero are wrapped by recording macros (argument log, call counters) around the same uninterpreted functions',
+        'A-callee: crs::set_size / crs::set_nonzeros bodies are inlined from /repo'],
+    replay='relax2', timeout=600, witness=wit('A') + ['w_r0'],
+    not_decided=['(L U)_ij = a_ij on the pattern and exactness on tridiagonal/arrow matrices (needs field arithmetic: not decidable by CBMC on this code)',
+                 'which value each factor entry holds (uninterpreted; only: kept entries are non-zero, dropped ones tested zero)',
+                 'OBSERVATION (outside the quantifier "non-zero diagonal"): a row whose stored entries all lie LEFT of a missing diagonal raises no exception; D[i] is then never written '
+                 '(uninitialised numa_vector cell) and never inverted', 'n beyond the bound'])
+# a strictly ascending row has at most n entries: every row loop runs <= NMAX times (unwinding assertions check it)
+ilu0_structure.unwindset = [(r'for\(ptrdiff_t [jk] = ', 'NMAX+1'), (r'for\(ptrdiff_t i = 0;', 'NMAX+1')]
+ilu0_structure.cover_exempt = r'^canary set_size\.1$'   # crs::set_size(n, m, clean_ptr): the constructor passes the default clean_ptr = false, the zeroing branch is not taken
+
+UNITS = [sky_values3, ilu_serial_solve, sptr_solve_lower, sptr_solve_upper, gs_parallel_sweep, spai0_ctor, ilu0_structure]
 for _u in UNITS:
     _u.replay_asan = True     # one replay binary for the whole family (built with ASan/UBSan: out-of-range reads of the real code become visible)
